@@ -37,7 +37,7 @@ def canon_tree(t, with_ids=False):
         return [nd.taxon.label if nd.taxon is not None else None, nd._label, repr(nd._edge.length), list(nd.comments), ann, eann,
                 [rec_(c) for c in nd._child_nodes]]
     tann = _ann(t)
-    return {"rooted": t.is_rooted, "weight": repr(t.weight), "comments": list(t.comments), "annotations": tann,
+    return {"label": t.label, "rooted": t.is_rooted, "weight": repr(t.weight), "comments": list(t.comments), "annotations": tann,
             "root": rec_(t._seed_node)}
 
 
@@ -85,8 +85,11 @@ def make_tree_doc(rng, like=None):
         return {"schema": "newick", "text": text, "collections": [ntrees], "labels": labs, "style": style, "raw": raw}
     if fam == "nexus":
         nblocks = rng.choice([1, 1, 2])
+        taxa_order = list(labs)
+        if like is not None and rng.random() < 0.5:
+            rng.shuffle(taxa_order)         # the other document lists the same taxa in another order
         text = "#NEXUS\n%sBEGIN TAXA;\n  DIMENSIONS NTAX=%d;\n  TAXLABELS %s;\nEND;\n" % (
-            "[file comment]\n" if block_comments else "", n, " ".join(quote(l) for l in labs))
+            "[file comment]\n" if block_comments else "", n, " ".join(quote(l) for l in taxa_order))
         if like is None and rng.random() < 0.35:
             nchar = rng.randint(2, 6)
             text += "BEGIN CHARACTERS;\n  DIMENSIONS NCHAR=%d;\n  FORMAT DATATYPE=DNA MISSING=? GAP=-;\n  MATRIX\n" % nchar
@@ -113,6 +116,11 @@ def make_tree_doc(rng, like=None):
                 if block_comments and rng.random() < 0.5:
                     text += "  [after translate]\n"
             k = rng.randint(1, 3)
+            bare_numbers = (not translate) and rng.random() < 0.3
+            if bare_numbers:
+                # no TRANSLATE table: a number names the taxon at that position of this file's TAXA block
+                translate = True
+                num = dict((l, taxa_order.index(l) + 1) for l in labs)
             for i in range(k):
                 s = tree_text()
                 if translate:
@@ -194,7 +202,7 @@ class C13(Machine):
                                   "ci": rng.randrange(10), "ti": rng.randrange(10), "seed": rng.getrandbits(30),
                                   "doc": rng.randrange(len(docs_)), "off": rng.randint(-4, 4)})
             return {"config": {"kind": kind, "schema": d["schema"], "opts": opts, "collections": [x["collections"] for x in docs_],
-                               "labels": d["labels"], "addr_seed": rng.getrandbits(32)},
+                               "labels": d["labels"], "addr_seed": rng.getrandbits(32), "foreign_taxa": rng.choice([0, 0, 0, 1, 3])},
                     "initial": {"texts": [x["text"] for x in docs_]}, "steps": steps}
         d = make_matrix_doc(rng)
         steps = [{"op": "call", "route": rng.choice(MATRIX_ROUTES), "short": rng.choice([0, 1, 3]), "seed": rng.getrandbits(30)}
@@ -246,6 +254,8 @@ class C13(Machine):
                 return
             refs.append((text, cols, ref_all, ref_cols))
         ns = dendropy.TaxonNamespace()
+        for k_ in range(cfg.get("foreign_taxa", 0)):
+            ns.new_taxon(label="zz pre %d" % k_)       # the shared namespace serves other data as well
         iters = []          # [iterator, delivered canon list, done]
         routes = []
         pattern = []
@@ -253,8 +263,16 @@ class C13(Machine):
         # documented exclusion: a live iterator's namespace must not gain taxa through another call, so the shared
         # namespace is pre-populated with every label of every document of the session by complete reads
         for text, cols, ref_all, ref_cols in refs[1:]:
-            got = [canon_tree(t) for t in dendropy.TreeList.get(data=text, schema=schema, taxon_namespace=ns, **opts)]
-            first = [canon_tree(t) for t in dendropy.TreeList.get(data=refs[0][0], schema=schema, taxon_namespace=ns, **opts)]
+            try:
+                got = [canon_tree(t) for t in dendropy.TreeList.get(data=text, schema=schema, taxon_namespace=ns, **opts)]
+                first = [canon_tree(t) for t in dendropy.TreeList.get(data=refs[0][0], schema=schema, taxon_namespace=ns, **opts)]
+            except Exception as e:
+                import traceback
+                fn = [f.name for f in traceback.extract_tb(e.__traceback__) if "dendropy" in f.filename]
+                rec.violation("ROUTE_FAILED", {"schema": schema, "route": "treelist_get_shared_namespace", "exception": type(e).__name__,
+                                               "function": fn[-1] if fn else "harness"},
+                              "TreeList.get into the shared namespace raised %s: %s although the same text reads alone" % (type(e).__name__, e))
+                raise StopRun()
             if got != ref_all or first != refs[0][2]:
                 d = _first_diff(got, ref_all) if got != ref_all else _first_diff(first, refs[0][2])
                 rec.violation("ROUTE_DIFFERS", {"schema": schema, "route": "treelist_get_shared_namespace", "what": d[0]},
